@@ -25,6 +25,7 @@ pub mod c15;
 pub mod c16;
 pub mod c17;
 pub mod c18;
+pub mod c20;
 
 #[rustfmt::skip]
 pub mod gen_cells;
